@@ -453,6 +453,78 @@ def main():
         except Exception as ex:  # noqa: BLE001
             res.fail(f"point location raises embedded elem={et}", f"{type(ex).__name__}: {str(ex)[:150]}", ident)
 
+    # ---------------- queries on a deformed configuration (displacementMatrix=...) read the mesh, they do not move it ----------------
+    # Gauss coordinates / normals / nodal normals asked on the configuration x + U(x) with a non-rigid U, on every group; afterwards the
+    # coordinates of every group, the measure, the closure and the flux of the position vector are those of the reference configuration
+    for et in (["TRI3", "QUAD8", "PRISM6"] if not thorough else ["TRI3", "TRI6", "QUAD4", "QUAD8", "TETRA4", "HEXA8", "PRISM6"]):
+        dimq = M.dim_of(et)
+        meshq = M.mesh_2d(et, 2.0, 1.0, 0.7) if dimq == 2 else M.mesh_3d(et, 2.0, 1.0, 1.5, 1.0, 2)
+        identq = dict(elemType=et, ops=["reference: coordinates of every group, measure, closure, flux", "Get_GaussCoordinates_e_pg / Get_normals_e_pg / Mesh.Get_normals with displacementMatrix = 0.3 x (non-rigid)", "reference again"])
+        res.case((et, "deformed-configuration queries"))
+        try:
+            X0 = meshq.coord.copy()
+            ref_groups = {g.elemType: np.asarray(g.coord, float).copy() for g in meshq.Get_list_groupElem()}
+            tot0, fl0 = boundary_integrals(meshq)
+            meas0 = meshq.area if dimq == 2 else meshq.volume
+            U = np.zeros_like(X0)
+            U[:, 0] = 0.3 * X0[:, 0] + 0.1 * X0[:, 1]
+            U[:, 1] = -0.2 * X0[:, 1]
+            first = {}
+            for g in meshq.Get_list_groupElem():
+                if g.dim == 0:
+                    continue
+                for mt_ in ("mass", "rigi"):
+                    xg = np.asarray(g.Get_GaussCoordinates_e_pg(mt_, displacementMatrix=U))
+                    xr = np.asarray(g.Get_GaussCoordinates_e_pg(mt_))
+                    first[(g.elemType.name, mt_)] = float(np.abs(xg - (xr + np.stack([0.3 * xr[..., 0] + 0.1 * xr[..., 1], -0.2 * xr[..., 1], 0 * xr[..., 0]], axis=-1))).max())
+                if g.dim == dimq - 1:
+                    g.Get_normals_e_pg("mass", U)
+            meshq.Get_normals(displacementMatrix=U)
+            worst = max(first.values())
+            if not (worst <= 1e-12):
+                res.fail(f"Gauss coordinates on the deformed configuration elem={et}", f"Get_GaussCoordinates_e_pg(displacementMatrix=U) is not x_gauss + U(x_gauss) for the linear U (max deviation {worst:.2e}): {first}", identq)
+            dev = {str(k): float(np.abs(np.asarray(g.coord, float) - ref_groups[g.elemType]).max()) for g in meshq.Get_list_groupElem() for k in [g.elemType]}
+            tot1, fl1 = boundary_integrals(meshq)
+            meas1 = meshq.area if dimq == 2 else meshq.volume
+            if not (max(dev.values()) <= 1e-14) or not (np.abs(meshq.coord - X0).max() <= 1e-14):
+                res.fail(f"a query on the deformed configuration moved the mesh elem={et}", f"coordinates of the element groups changed by {dev} (mesh.coord by {np.abs(meshq.coord - X0).max():.2e}) after queries with displacementMatrix", identq)
+            elif not (abs(fl1 - fl0) <= 1e-10 * (1 + abs(fl0))) or not (np.abs(tot1 - tot0).max() <= 1e-10) or not (abs(meas1 - meas0) <= 1e-12 * meas0):
+                res.fail(f"reference quantities changed after a query on the deformed configuration elem={et}", f"flux of x {fl0!r} -> {fl1!r}, closure {tot0.tolist()} -> {tot1.tolist()}, measure {meas0!r} -> {meas1!r}", identq)
+        except Exception as ex:  # noqa: BLE001
+            res.fail(f"deformed-configuration queries raise elem={et}", f"{type(ex).__name__}: {str(ex)[:200]}", identq)
+
+    # ---------------- plane meshes built directly in a coordinate plane other than (x, y), bars along y or z ----------------
+    # (a mesh generated in the (x, y) plane and handed over with its axes relabelled, as CAD models standing on the (x, z) plane are)
+    from EasyFEA.FEM import Mesh as _MeshP
+    from EasyFEA.FEM._group_elem import GroupElemFactory as _GEFP
+    for et in (["TRI3", "QUAD4", "TRI6", "SEG2", "SEG3"] if not thorough else ["TRI3", "TRI6", "TRI10", "QUAD4", "QUAD8", "QUAD9", "SEG2", "SEG3", "SEG4"]):
+        base = M.mesh_2d(et, 2.0, 1.0, 0.7) if M.dim_of(et) == 2 else M.mesh_1d(et, 4.0, 4)
+        for plane, perm in (("xz", [0, 2, 1]), ("yz", [2, 0, 1]), ("zx", [1, 2, 0])):
+            identp = dict(elemType=et, plane=plane, built="Mesh(groups created from the coordinates with permuted axes)")
+            res.case((et, "coordinate plane", plane))
+            try:
+                Xp = base.coord[:, perm].copy()
+                meshp = _MeshP({g.elemType: _GEFP.Create(g.elemType, np.asarray(g.connect), Xp) for g in base.dict_groupElem.values()})
+                gmain = meshp.groupElem
+                meas = {1: lambda: gmain.length, 2: lambda: meshp.area}[gmain.dim]()
+                want = 4.0 if gmain.dim == 1 else 2.0
+                cen = np.asarray(meshp.center, float)
+                wantc = np.asarray(base.center, float)[perm]
+                polyp = Poly(rng, 1, 3)
+                ptsp = np.asarray(gmain.Get_GaussCoordinates_e_pg("mass"), float).reshape(-1, 3)[:7]
+                gotp = np.asarray(meshp.Evaluate_dofsValues_at_coordinates(ptsp, polyp(meshp.coord))).ravel()
+                bad = []
+                if not (abs(meas - want) <= 1e-10):
+                    bad.append(f"measure {meas!r} (exact {want})")
+                if not (np.abs(cen - wantc).max() <= 1e-10):
+                    bad.append(f"centre {cen.tolist()} (exact {wantc.tolist()})")
+                if not (np.abs(gotp - polyp(ptsp)).max() <= 1e-9 * (1 + np.abs(polyp(ptsp)).max())):
+                    bad.append(f"linear field evaluated at {len(ptsp)} interior points off by {np.abs(gotp - polyp(ptsp)).max():.2e}")
+                if bad:
+                    res.fail(f"mesh lying in the {plane} plane elem={et}", "; ".join(bad), identp)
+            except Exception as ex:  # noqa: BLE001
+                res.fail(f"mesh lying in the {plane} plane raises elem={et}", f"{type(ex).__name__}: {str(ex)[:200]}", identp)
+
     # ---------------- the same domain described in another length unit (all coordinates times s) ----------------
     # measure ~ s^d, centre ~ s, normals unchanged (unit), Σ ∫ n dS ~ s^nd, flux of x ~ s^(nd+1) (nd: dimension of the
     # groups carrying the normals), located-point evaluation unchanged; reference: the same mesh in units of order 1
